@@ -48,7 +48,9 @@ MANIFEST = {
     "level_text": "Lean theorems (all struct/tuple type trees, place ids, locals maps, wire supplies; structural induction, no bounds) "
     "about the model of DFContainer.__getitem__/__setitem__: setitem stores exactly the leaf sub-places and forgets enclosing cached "
     "values; unpack-then-pack denotes the stored value (independent op interpreter); on a place stored as leaves getitem never fails, "
-    "every leaf wire is consumed by exactly one MakeTuple, linear sub-places are forgotten. The model is tied to compiler/core.py on every "
+    "every leaf wire is consumed by exactly one MakeTuple, linear sub-places are forgotten; and for every script of sub-place assignments and "
+    "(moving) reads accepted by an independent reference store semantics, every read returns a wire denoting the reference value "
+    "(DFContainer is a correct store; false before repair 32e45a7). The model is tied to compiler/core.py on every "
     "run by same-input correspondence against the real DFContainer (quick 400 / thorough 12000 scripts) with an independent oracle on the "
     "real Hugr. The rest of C01 (whole programs lower to structurally valid HUGR) is NOT proved: it is searched by lowering generated accepted "
     "programs with the real compiler and checking them with a harness-side structural validator (quick ~120 / thorough ~3000 programs).",
@@ -336,7 +338,12 @@ def _tup(x):
     return tuple(_tup(i) for i in x) if isinstance(x, (list, tuple)) else x
 
 
-def _wiring(ctx, cases) -> None:
+def _wiring(ctx, cases, batch: int = 1500) -> None:
+    for i in range(0, len(cases), batch):
+        _wiring_batch(ctx, cases[i:i + batch])
+
+
+def _wiring_batch(ctx, cases) -> None:
     import c01_wiring as W
     reqs, reps, reals = [], [], []
     for c in cases:
